@@ -182,7 +182,7 @@ chk("C10",
     assumptions=["the request itself carries no Last-Event-ID header"],
     nbatch={"quick": 16, "thorough": 16},
     timeout_s={"quick": 600, "thorough": 3600},
-    floors={"quick": {"connect_executions": 5000, "attempts_observed": 20000}},
+    floors={"quick": {"connect_executions": 5000, "attempts_observed": 20000, "reconnect_by_hand_scenarios": 1000}},
     )
 
 chk("C11",
@@ -194,7 +194,7 @@ chk("C11",
     assumptions=["when a script makes two reasons true at once both results are accepted"],
     nbatch={"quick": 16, "thorough": 16},
     timeout_s={"quick": 600, "thorough": 3600},
-    floors={"quick": {"connect_executions": 10000, "attempts_observed": 20000}},
+    floors={"quick": {"connect_executions": 10000, "attempts_observed": 20000, "reconnect_by_hand_scenarios": 1000}},
     )
 
 chk("C12",
@@ -206,7 +206,7 @@ chk("C12",
     assumptions=["no statistical claim about the jitter distribution, only its bounds"],
     nbatch={"quick": 16, "thorough": 16},
     timeout_s={"quick": 600, "thorough": 3600},
-    floors={"quick": {"connect_executions": 5000, "onretry_observed": 30000}},
+    floors={"quick": {"connect_executions": 5000, "onretry_observed": 30000, "reconnect_by_hand_scenarios": 1000}},
     )
 
 chk("C13",
@@ -218,7 +218,7 @@ chk("C13",
     assumptions=["one event per body chunk so that Read stamps bracket exactly one dispatch"],
     nbatch={"quick": 16, "thorough": 16},
     timeout_s={"quick": 600, "thorough": 3600},
-    floors={"quick": {"scripts": 10000, "callback_invocations_observed": 50000, "porcupine_histories": 10000}},
+    floors={"quick": {"scripts": 10000, "callback_invocations_observed": 50000, "porcupine_histories": 10000, "in_dispatch_scenarios": 300}},
     )
 
 chk("C16",
@@ -230,7 +230,7 @@ chk("C16",
     assumptions=["response writers respect the io.Writer contract"],
     nbatch={"quick": 16, "thorough": 16},
     timeout_s={"quick": 600, "thorough": 3600},
-    floors={"quick": {"session_scripts": 2500, "faulted_executions": 10000, "servehttp_executions": 3000}},
+    floors={"quick": {"session_scripts": 2500, "faulted_executions": 10000, "servehttp_executions": 3000, "zero_value_server_sessions": 40}},
     )
 
 chk("C19",
@@ -242,7 +242,7 @@ chk("C19",
     assumptions=["messages are not mutated concurrently with Publish by the caller"],
     nbatch={"quick": 8, "thorough": 16},
     timeout_s={"quick": 600, "thorough": 3600},
-    floors={"quick": {"family_checks": 300000, "puts": 5000, "joe_republish_executions": 1000}},
+    floors={"quick": {"family_checks": 300000, "puts": 5000, "joe_republish_executions": 1000, "shared_message_executions": 400}},
     )
 
 chk("C18",
@@ -254,7 +254,7 @@ chk("C18",
     assumptions=["runtime.GC() twice collects every unreachable message (precise GC)", "clock non-decreasing"],
     nbatch={"quick": 16, "thorough": 16},
     timeout_s={"quick": 600, "thorough": 3600},
-    floors={"quick": {"gc_probes": 15000, "dead_confirmed": 50000, "live_controls_ok": 30000}},
+    floors={"quick": {"gc_probes": 15000, "dead_confirmed": 50000, "live_controls_ok": 30000, "large_histories": 2}},
     gomaxprocs=[2],
     )
 
